@@ -844,7 +844,24 @@ where
     It: Deref<Target = Element<'a, Tr, M>>,
 {
     for op in script {
-        match *op {
+        let k = (*op >> 4) as usize;
+        match *op & 15 {
+            ITOP_NTH => match lib(|| it.nth(k)) {
+                None => cx.ev.push(Ev::NoneRet),
+                Some(e) => cx.ev.push(tag_of::<_, E>(&*e)),
+            },
+            ITOP_NTH_BACK => match lib(|| it.nth_back(k)) {
+                None => cx.ev.push(Ev::NoneRet),
+                Some(e) => cx.ev.push(tag_of::<_, E>(&*e)),
+            },
+            ITOP_REST => {
+                cx.ev.push(Ev::Len(lib(|| it.clone().count())));
+                match lib(|| it.clone().last()) {
+                    None => cx.ev.push(Ev::NoneRet),
+                    Some(e) => cx.ev.push(tag_of::<_, E>(&*e)),
+                }
+                cx.ev.push(Ev::Len(lib(|| it.len())));
+            }
             ITOP_NEXT => match lib(|| it.next()) {
                 None => cx.ev.push(Ev::NoneRet),
                 Some(e) => cx.ev.push(tag_of::<_, E>(&*e)),
@@ -879,7 +896,25 @@ where
     I::Item: std::ops::Deref<Target = E> + 's,
 {
     for op in script {
-        match *op {
+        let k = (*op >> 4) as usize;
+        match *op & 15 {
+            ITOP_NTH => match it.nth(k) {
+                None => cx.ev.push(Ev::NoneRet),
+                Some(e) => cx.ev.push(val_ev(e.tag())),
+            },
+            ITOP_NTH_BACK => match it.nth_back(k) {
+                None => cx.ev.push(Ev::NoneRet),
+                Some(e) => cx.ev.push(val_ev(e.tag())),
+            },
+            ITOP_REST if clone_it.is_some() => {
+                let cl = clone_it.unwrap();
+                cx.ev.push(Ev::Len(cl(&it).count()));
+                match cl(&it).last() {
+                    None => cx.ev.push(Ev::NoneRet),
+                    Some(e) => cx.ev.push(val_ev(e.tag())),
+                }
+                cx.ev.push(Ev::Len(it.len()));
+            }
             ITOP_NEXT => match it.next() {
                 None => cx.ev.push(Ev::NoneRet),
                 Some(e) => cx.ev.push(val_ev(e.tag())),
